@@ -90,8 +90,18 @@ def _vec_body(case, F, ref, state):
             if len(r["present"]) < spec["agents"]:
                 state["left_seen"] = True
         isolate.progress("step")
+        # a dict names its agents: the same actions under another key (insertion) order are the same call
+        keys = list(actions)
+        order = case.get("korder", 0)
+        if order == 1:
+            keys = keys[::-1]
+        elif order == 2:
+            keys = keys[(s + 1) % len(keys):] + keys[: (s + 1) % len(keys)]
+        if keys != list(actions):
+            F.label("action-dict-keys-not-in-declared-order")
+        passed = {k: actions[k] for k in keys}
         try:
-            out = vec.step(actions)
+            out = vec.step(passed)
         except Exception as e:  # noqa: BLE001
             site = f"{P}/step_with_absent_agent" if (absent_before or any(len(r["term"]) < spec["agents"] for r in recs)) else f"{P}/step"
             F.exc(site, e, where=f"step {s}")
@@ -250,7 +260,7 @@ def vec_strategy(draw, tier):
     return {"n": n, "spec": draw(spec_strategy(n)), "copy": draw(st.booleans()), "steps": steps,
             "seed": draw(st.none() | st.integers(0, 50)), "seed2": draw(st.none() | st.integers(0, 50)),
             "options": draw(st.none() | st.fixed_dictionaries({"offset": st.integers(0, 9)})),
-            "rereset": rereset, "aseed": draw(st.integers(0, 9999))}
+            "rereset": rereset, "aseed": draw(st.integers(0, 9999)), "korder": draw(st.sampled_from([0, 0, 1, 2]))}
 
 
 @st.composite
@@ -283,7 +293,9 @@ PROPERTY = Property(
                    examples={"quick": 600, "thorough": 2500}, shards={"quick": 4, "thorough": 4},
                    shrink_budget={"quick": 200, "thorough": 600}),
     ],
-    assumptions=["actions are handed to step() as the training loops do: (num_envs,) integer arrays for Discrete, (num_envs, *shape) "
+    assumptions=["the action dict is keyed by agent name; its key (insertion) order is drawn (declared / reversed / rotated per step) - "
+                 "IPPO returns its actions grouped by shared policy, not in the environment's declared order",
+                 "actions are handed to step() as the training loops do: (num_envs,) integer arrays for Discrete, (num_envs, *shape) "
                  "arrays otherwise",
                  "reset(seed=s) hands seed s+i to sub-environment i (the gymnasium vector convention this class implements); the "
                  "reference resets instance i with s+i",
@@ -291,7 +303,7 @@ PROPERTY = Property(
                  "at the step that finishes an episode either the final step's info or the new episode's info is accepted",
                  "real OS schedules are sampled (worker sleeps), not enumerated; a watchdog timeout counts as a violation only inside "
                  "reset()/step()/call() on this fault-free domain, never inside close()"],
-    wanted_labels=["interleaved-resets", "auto-reset-seen", "agent-left-early", "ended-by=term", "ended-by=trunc", "ended-by=mixed",
+    wanted_labels=["interleaved-resets", "auto-reset-seen", "agent-left-early", "action-dict-keys-not-in-declared-order", "ended-by=term", "ended-by=trunc", "ended-by=mixed",
                    "obs=vector", "obs=image", "obs=dict", "obs=tuple", "copy=True", "copy=False",
                    "wrapper-episode-finished-with-truncation", "wrapper-episode-finished-by-termination"],
 )
